@@ -300,6 +300,30 @@ impl EigenTrustEngine {
                 new_trust.insert(node.clone(), (1.0 - self.alpha) * trust_sum);
             }
 
+            // Mass held by nodes without any positive outgoing statement has no
+            // edge to flow along. It is handed to the teleport distribution
+            // (anchors, or everybody when there are none); dropping it and
+            // renormalising would inflate closed, unvouched groups.
+            let dangling_mass: f64 = trust_vector
+                .iter()
+                .filter(|(node, _)| outgoing_sums.get(*node).is_none_or(|sum| *sum <= 0.0))
+                .map(|(_, trust)| *trust)
+                .sum();
+            if dangling_mass > 0.0 {
+                let share = (1.0 - self.alpha) * dangling_mass;
+                if !pre_trusted.is_empty() {
+                    for pre_node in pre_trusted.iter() {
+                        *new_trust.entry(pre_node.clone()).or_insert(0.0) +=
+                            share * pre_trust_value;
+                    }
+                } else {
+                    let uniform_value = share / n as f64;
+                    for node in &node_set {
+                        *new_trust.entry(node.clone()).or_insert(0.0) += uniform_value;
+                    }
+                }
+            }
+
             // Add teleportation component (alpha portion)
             if !pre_trusted.is_empty() {
                 // Teleport to pre-trusted nodes only
